@@ -441,6 +441,26 @@ def run(repo, chk):
             chk.expect(ok, 'C01.S1', 'gen_stmts[Assignment/variable]', 'the evaluated value is stored into the looked-up variable', GEN)
             break
 
+    # one specialisation (label, queue entry) per distinct concrete signature; labels are distinct
+    g = object.__new__(CG)
+    from collections import deque
+    g.func_labels, g.func_queue, g.numbered_labels = {}, deque(), {}
+    CS, Ident = sym['ConcreteSignature'], astns['Ident']
+    sigs = [CS(Ident('f'), (DT.INT,)), CS(Ident('f'), (DT.BYTE,)), CS(Ident('f'), (CAT(DT.INT, AM.RW),)), CS(Ident('f'), (CAT(DT.INT, AM.RC),)),
+            CS(Ident('f'), (CAT(DT.INT, AM.R),)), CS(Ident.you('f'), (DT.INT,)), CS(Ident('g'), (DT.INT,)), CS(Ident('f'), ())]
+    labels = [g.label_for_func(s) for s in sigs]
+    again = [g.label_for_func(CS(s.name, tuple(s.concrete_params))) for s in sigs]
+    ok = len({l.label_name for l in labels}) == len(sigs) and [l.label_name for l in labels] == [l.label_name for l in again] \
+        and len(g.func_queue) == len(sigs)
+    chk.expect(ok, 'C01.P1', 'label_for_func', f'labels {[l.label_name for l in labels]} / second request {[l.label_name for l in again]} / '
+               f'{len(g.func_queue)} queued: every distinct (name, flavour, concrete parameter types incl. array storage) needs its own '
+               'function body, and a repeated request must reuse it', GEN)
+    s1 = [g.add_label('x').label_name for _ in range(3)] + [g.add_label('y').label_name]
+    chk.expect(s1 == ['x_0', 'x_1', 'x_2', 'y_0'], 'C01.P1', 'add_label', f'{s1}: labels must be unique', GEN)
+    g.string_labels = {}
+    st = [g.label_for_string(b).label_name for b in (b'a', b'b', b'a', b'')]
+    chk.expect(st[0] == st[2] and len(set(st)) == 3, 'C01.P1', 'label_for_string', f'{st}: one table entry per distinct byte string', GEN)
+
     # ---------------- A1 ---------------------------------------------------------------------------------
     gl = gf.methods['gen_lines']
     body = [src(s) for s in gl.body]
@@ -462,4 +482,19 @@ def run(repo, chk):
                '__post_init__::array length', 'array length = argc minus the scalar parameters', GEN)
     chk.expect("self.label_for_func(ConcreteSignature(ast.Ident.you('is_you'), tuple(concrete_types)))" in pi, 'C01.A1',
                '__post_init__::entry specialisation', 'the entry point is generated for the concrete parameter types', GEN)
+    # the code section starts with the entry function: execution begins at the first instruction
+    i_code = text.find("yield b'%section code'")
+    i_funcs = text.find('for code in self.func_table.values()')
+    i_lib = text.find('yield from stdlib.stdlib_lines')
+    chk.expect(0 <= i_code < i_funcs < i_lib, 'C01.A1', 'gen_lines::code section order',
+               'generated functions (entry function first) precede the library routines', GEN)
+    i_upd = pi.find('self.func_labels.update(stdlib.stdlib_funcs)')
+    i_entry = pi.find("self.label_for_func(ConcreteSignature(ast.Ident.you('is_you')")
+    i_make = pi.find('self.make_funcs()')
+    chk.expect(0 <= i_upd < i_entry < i_make and pi.count('self.label_for_func(') == 1, 'C01.A1', '__post_init__::entry generated first',
+               'the entry point must be the first function requested, so that it is the first body in the code section', GEN)
+    mfn = src(gf.methods['make_funcs'])
+    chk.expect('self.func_table[csig] = list(self.gen_func(csig, decl))' in mfn.replace('\n', ' ').replace('  ', '') or
+               ('self.func_table[csig] = list(' in mfn and 'self.gen_func(csig, decl)' in mfn), 'C01.A1', 'make_funcs',
+               'bodies are stored in generation order', GEN)
     chk.not_decided = ['the output bytes of any particular program; wrap-around, truncation and the VM\'s arithmetic (see C09)']
